@@ -681,10 +681,12 @@ pub const FIXTURE: &[(K, &str)] = &[
     (K::List, "[{},{}]"),
     (K::Dict, "{}"),
     (K::List, "[]"),
+    (K::List, "[{a:1},N,\"s\",{b:2}]"),
+    (K::Grid, "ver:\"2.0\" m:\"meta\"\nsite dis:\"Site col\",id,a,empty\nM,@r1,1,\nM,@r2,2,\n"),
 ];
-const FIX_OUT: i64 = 24; // an initialised (Null) handle used as `result`
-const FIX_NEW: i64 = 25; // empty slot for returned handles
-const FIX_OUT_HEAP: i64 = 26; // a handle owning heap data, also used as `result`
+const FIX_OUT: i64 = 26; // an initialised (Null) handle used as `result`
+const FIX_NEW: i64 = 27; // empty slot for returned handles
+const FIX_OUT_HEAP: i64 = 28; // a handle owning heap data, also used as `result`
 
 pub fn fixture_ops() -> Vec<Op> {
     let mut ops = Vec::new();
@@ -694,7 +696,7 @@ pub fn fixture_ops() -> Vec<Op> {
     ops.push(Op::new(0, "haystack_value_init").h(&[FIX_OUT]));
     ops.push(Op::new(0, "haystack_value_from_zinc_string").h(&[FIX_OUT_HEAP]).s(&[Some(b"{old:\"contents that own heap memory\" l:[1,2,3]}")]));
     ops.push(Op::new(0, "haystack_filter_parse").h(&[0]).s(&[Some(b"site")]));
-    ops.push(Op::new(0, "haystack_filter_parse").h(&[1]).s(&[Some(b"a == 1")]));
+    ops.push(Op::new(0, "haystack_filter_parse").h(&[1]).s(&[Some(b"a")]));
     ops
 }
 
@@ -811,15 +813,32 @@ pub fn sweep_null(prop: &str) -> Vec<Case> {
                 if out == FIX_OUT_HEAP && !spec.h.contains(&A::Out) {
                     continue;
                 }
-                let mut op = default_op(spec, out);
-                for (kind, i) in &subset {
-                    if *kind == 'h' {
-                        op.h[*i] = -1;
-                    } else {
-                        op.s[*i] = None;
+                // a null pointer together with each other kind of bad argument the call can have: an
+                // index out of range, the filter that matches nothing / everything
+                let mut variants: Vec<(String, Vec<u64>, Option<i64>)> = vec![("".into(), spec.n.iter().map(|k| default_n(*k)).collect(), None)];
+                if spec.n.contains(&N::Index) {
+                    for bad in [3u64, 99, usize::MAX as u64] {
+                        variants.push((format!(" index={bad}"), spec.n.iter().map(|k| if *k == N::Index { bad } else { default_n(*k) }).collect(), None));
                     }
                 }
-                cases.push(sweep_case(prop, "sweep:null", format!("{} null={:?} out={out}", spec.f, subset), vec![op]));
+                if spec.h.contains(&A::InFilter) {
+                    variants.push((" filter=matches-every-row".into(), spec.n.iter().map(|k| default_n(*k)).collect(), Some(1)));
+                }
+                for (vname, nums, filter_slot) in variants {
+                    let mut op = default_op(spec, out);
+                    op.n = nums;
+                    if let (Some(fs), Some(p)) = (filter_slot, spec.h.iter().position(|a| *a == A::InFilter)) {
+                        op.h[p] = fs;
+                    }
+                    for (kind, i) in &subset {
+                        if *kind == 'h' {
+                            op.h[*i] = -1;
+                        } else {
+                            op.s[*i] = None;
+                        }
+                    }
+                    cases.push(sweep_case(prop, "sweep:null", format!("{} null={:?} out={out}{vname}", spec.f, subset), vec![op]));
+                }
             }
         }
     }
